@@ -3,6 +3,7 @@ package props
 import (
 	"fmt"
 	"reflect"
+	"strings"
 	"unsafe"
 )
 
@@ -184,4 +185,52 @@ func setAny(dst, src reflect.Value) {
 		return
 	}
 	reflect.NewAt(dst.Type(), unsafe.Pointer(dst.UnsafeAddr())).Elem().Set(src)
+}
+
+// replaceStrings rewrites every string reachable from v (a pointer) replacing old by new.
+func replaceStrings(root any, old, new string) {
+	var walk func(v reflect.Value)
+	walk = func(v reflect.Value) {
+		switch v.Kind() {
+		case reflect.Ptr, reflect.Interface:
+			if !v.IsNil() {
+				if v.Kind() == reflect.Interface {
+					e := v.Elem()
+					if e.Kind() == reflect.String && v.CanSet() {
+						v.Set(reflect.ValueOf(strings.ReplaceAll(e.String(), old, new)))
+						return
+					}
+					walk(e)
+					return
+				}
+				walk(v.Elem())
+			}
+		case reflect.String:
+			if v.CanSet() {
+				v.SetString(strings.ReplaceAll(v.String(), old, new))
+			}
+		case reflect.Struct:
+			for i := 0; i < v.NumField(); i++ {
+				walk(v.Field(i))
+			}
+		case reflect.Slice:
+			for i := 0; i < v.Len(); i++ {
+				walk(v.Index(i))
+			}
+		case reflect.Map:
+			it := v.MapRange()
+			type kv struct{ k, v reflect.Value }
+			var upd []kv
+			for it.Next() {
+				e := reflect.New(v.Type().Elem()).Elem()
+				e.Set(it.Value())
+				walk(e)
+				upd = append(upd, kv{it.Key(), e})
+			}
+			for _, u := range upd {
+				v.SetMapIndex(u.k, u.v)
+			}
+		}
+	}
+	walk(reflect.ValueOf(root))
 }
